@@ -166,6 +166,9 @@ def build_http_config(rng, keyname="rsa1024_a", hostile=False, extras=True, allo
         uris = ["/" + u for u in uris]
     if rng.random() < 0.3:
         uris = [uris[0]] * ndom
+    elif ndom > 1 and rng.random() < 0.25:
+        # one C2 host listed several times, each time with another URI (the client picks any of the pairs)
+        m["domains"] = [m["domains"][0]] * ndom
     m["uris"] = uris
     m["submit_uri"] = "/" + _text(rng, rng.randrange(2, 10)).decode() + rng.choice([".php", "", "/submit", ";jsessionid=1", ".php;x", "/"])
     if allow_uri and rng.random() < 0.1:
@@ -175,6 +178,10 @@ def build_http_config(rng, keyname="rsa1024_a", hostile=False, extras=True, allo
     ua = "Mozilla/5.0 (Windows NT 10.0; Win64; x64) " + _text(rng, rng.randrange(0, 60), b"abcdefghijklmnopqrstuvwxyz /.;()0123456789").decode()
     if hostile and rng.random() < 0.6:
         ua = bytes(rng.choice(PRINTABLE + b"  ") for _ in range(rng.randrange(1, 100))).decode().strip() or "x"
+    if hostile and rng.random() < 0.3:
+        # one byte per character: characters U+0080..U+00FF are single bytes of the setting
+        pos = rng.randrange(0, len(ua) + 1)
+        ua = (ua[:pos] + rng.choice(["\u00e9", "\u00fc", "\u00a9 2024", "Caf\u00e9"]) + ua[pos:]).strip() or "x"
     m["useragent"] = ua[:126]
     m["verb_get"] = rng.choice(["GET", "GET", "POST"])
     m["verb_post"] = rng.choice(["POST", "POST", "GET"])
@@ -188,7 +195,7 @@ def build_http_config(rng, keyname="rsa1024_a", hostile=False, extras=True, allo
     m["post_prog"] = gen_client_program(rng, builds, allow_uri=allow_uri, hostile=hostile)
     m["recover_prog"] = gen_recover_program(rng)
     m["watermark"] = rng.getrandbits(32)
-    m["spawnto_x86"] = "%windir%\\syswow64\\" + rng.choice(["rundll32.exe", "dllhost.exe", "gpupdate.exe"])
+    m["spawnto_x86"] = "%windir%\\syswow64\\" + rng.choice(["rundll32.exe", "dllhost.exe", "gpupdate.exe"] + (["m\u00fcll.exe"] if hostile else []))
     m["spawnto_x64"] = "%windir%\\sysnative\\" + rng.choice(["rundll32.exe", "dllhost.exe", "gpupdate.exe"])
     s = [
         (1, 1, struct.pack(">H", m["protocol"])), (2, 1, struct.pack(">H", m["port"])), (3, 2, u32(m["sleeptime"])), (4, 2, u32(m["maxget"])),
@@ -198,7 +205,7 @@ def build_http_config(rng, keyname="rsa1024_a", hostile=False, extras=True, allo
         (11, 3, enc_recover(m["recover_prog"]).ljust(256, b"\0")), (12, 3, enc_transform(m["get_prog"]).ljust(512, b"\0")),
         (13, 3, enc_transform(m["post_prog"]).ljust(512, b"\0")),
         (26, 3, m["verb_get"].encode().ljust(16, b"\0")), (27, 3, m["verb_post"].encode().ljust(16, b"\0")),
-        (28, 2, u32(0)), (29, 3, m["spawnto_x86"].encode().ljust(64, b"\0")), (30, 3, m["spawnto_x64"].encode().ljust(64, b"\0")),
+        (28, 2, u32(0)), (29, 3, m["spawnto_x86"].encode("latin-1").ljust(64, b"\0")), (30, 3, m["spawnto_x64"].encode().ljust(64, b"\0")),
         (31, 1, struct.pack(">H", 0)), (37, 2, u32(m["watermark"])),
     ]
     # present in every 4.x beacon and required by the library's client
